@@ -120,6 +120,14 @@ func c13Job(raw json.RawMessage) (interface{}, error) {
 	}
 	build := func() (*World, map[string]bool) {
 		w := NewWorld(base)
+		// recycle a few inode numbers first, so that generations differ between the directory and its entries
+		for _, n := range []string{"t1", "t2", "t3"} {
+			w.Do(fsx.Op{K: "CREATE", H: "root", N: n})
+		}
+		for _, n := range []string{"t1", "t2", "t3"} {
+			w.Do(fsx.Op{K: "REMOVE", H: "root", N: n})
+		}
+		w.Do(fsx.Op{K: "RESTART"})
 		w.Do(fsx.Op{K: "MKDIR", H: "root", N: "dir"})
 		present := map[string]bool{".": true, "..": true}
 		for i, n := range s.names() {
